@@ -94,6 +94,7 @@ package section
 
 //@ func (p *programSplitter) readPatch() (s)
 //@   requires lineOK(p)
+//@   ensures [C13,C19] a-body-ends-at-the-first-line-that-begins-a-header: (forall k int {s[k]} :: 0 <= k && k < len(s) ==> len(s[k].Text) == 0 || s[k].Text[0] != 64) && (p.eof || (len(p.text) > 0 && p.text[0] == 64))
 //@   ensures [C13,C19] a-stored-line-is-the-line-as-written-beginning-where-its-position-says: forall k int {s[k]} :: 0 <= k && k < len(s) ==> s[k] != nil && arr(s[k].Text) == arr(p.content) && s[k].StartPos == filePos(p.file, off(s[k].Text) - off(p.content))
 //@   ensures lineOK(p)
 //@   ensures eof-is-final: old(p.eof) ==> p.eof
@@ -102,6 +103,7 @@ package section
 //@   loop 0
 //@     invariant p.offset >= old(p.offset) && lineOK(p) && (old(p.eof) ==> p.eof)
 //@     invariant s.arr == 0 || fresh(s.arr)
+//@     invariant [C13,C19] no-stored-body-line-begins-a-header: forall k int {s[k]} :: 0 <= k && k < len(s) ==> len(s[k].Text) == 0 || s[k].Text[0] != 64
 //@     invariant [C13,C19] a-stored-line-is-the-line-as-written-beginning-where-its-position-says: forall k int {s[k]} :: 0 <= k && k < len(s) ==> s[k] != nil && arr(s[k].Text) == arr(p.content) && s[k].StartPos == filePos(p.file, off(s[k].Text) - off(p.content))
 //@     decreases len(p.content) + 1 - p.offset + ite(p.eof, 0, 1)
 
@@ -150,3 +152,22 @@ package section
 //@     invariant lines.arr == 0 || fresh(lines.arr)
 //@     invariant [C19] len(bufstr(buff)) == lineStart(s, #k)
 //@     invariant [C19] forall j int {lines[j]} :: 0 <= j && j < #k ==> lines[j].Offset == lineStart(s, j) && lines[j].Pos == s[j].StartPos
+
+// Where a line begins and where it ends (just past its last byte); a change ends where its last patch line
+// ends - the position the implicit trailing elision of a statement pattern is given (C04, C13).
+//@ func (l *Line) Pos() (p)
+//@   requires l != nil
+//@   ensures p == l.StartPos
+//@   assigns nothing
+
+//@ func (l *Line) End() (p)
+//@   requires l != nil
+//@   ensures [C04,C13] p == l.StartPos + len(l.Text)
+//@   assigns nothing
+
+//@ func (c *Change) End() (p)
+//@   requires c != nil
+//@   requires typing: forall k int {c.Patch[k]} :: 0 <= k && k < len(c.Patch) ==> c.Patch[k] != nil
+//@   ensures [C04,C13] the-end-of-the-last-patch-line: len(c.Patch) > 0 ==> p == c.Patch[len(c.Patch) - 1].StartPos + len(c.Patch[len(c.Patch) - 1].Text)
+//@   ensures [C04,C13] an-empty-patch-ends-after-the-second-at-pair: len(c.Patch) == 0 ==> p == c.AtPos + 2
+//@   assigns nothing
